@@ -49,6 +49,11 @@ pub fn gen_case(ch: &mut Choices, tier: Tier) -> Case {
 
 /// As `gen_case`, with an optional transformation of the decorated AG before it is rendered.
 pub fn gen_case_with(ch: &mut Choices, tier: Tier, post: Option<fn(&mut Choices, &mut AG, YKind)>) -> Case {
+    gen_case_opts(ch, tier, post, [5, 3, 1, 1])
+}
+
+/// As `gen_case_with`, with the weights of the grammar strata (rand, expr, lr1, repo).
+pub fn gen_case_opts(ch: &mut Choices, tier: Tier, post: Option<fn(&mut Choices, &mut AG, YKind)>, strata: [usize; 4]) -> Case {
     let kind = *ch.choose(&[YKind::Generic, YKind::Grmtools, YKind::UserAction, YKind::Eco, YKind::NoAction, YKind::Generic]);
     let o = GenOpts {
         max_rules: tier.pick(4, 6),
@@ -57,7 +62,7 @@ pub fn gen_case_with(ch: &mut Choices, tier: Tier, post: Option<fn(&mut Choices,
         max_tokens: 5,
         allow_cycles: true,
         allow_unproductive: true,
-        strata: [5, 3, 1, 1],
+        strata,
         precedence: true,
         avoid_insert: false,
         pad_tokens: true,
